@@ -79,6 +79,9 @@ class TargetOracle:
         tgt = args[0]
         label = (tgt.cell.lstrip("*") + "".join(f".{p[1]}" for p in tgt.path)) if isinstance(tgt, Ref) else ex.val_name(st, tgt)
         st.trace.append({"kind": "store", "target": label, "value": args[1], "n": len(st.trace)})
+        if dest_ty.strip() not in ("()", "", "?"):
+            # a store that reports something (e.g. a Result): the answer is arbitrary -- the target may have rejected the write
+            return [(st, Outcome("ret", ex.fresh(dest_ty, f"store_result#{len(st.trace)}[{label}]")))]
         return [(st, Outcome("ret", UNIT))]
 
 
@@ -439,6 +442,11 @@ def assign_semantics(run, desc, S):
         if p.outcome.kind == "ret":
             ret_ok_val = _okval(v, p.outcome.value)
         ret_ok = v.is_variant(p.outcome.value, "Ok", RES) if p.outcome.kind == "ret" else z3.BoolVal(False)
+        # C17: whatever the stores answer (a rejected write is dropped), the assignment itself succeeds whenever its
+        # expression produced a value (Infallible: also when it failed with an ordinary error)
+        handled = z3.Or(ok0, err_is(v, r0, "Error")) if d == "[Infallible]" else ok0
+        obls.append(Obl(f"C17:AssignVariant{d}:rejected-write-does-not-end-the-assignment", {"C17"},
+                        f"C17:AssignVariant{d}:rejected-write-does-not-end-the-assignment#path{pi}", p, z3.Implies(handled, ret_ok), {"trace": raw}))
         if d == "[Infallible]":
             okT, errT = "self.Infallible.0", "self.Infallible.1"
             default = ex.child_of("self*", "Variant", "Infallible", 3, VAL)
